@@ -11,6 +11,51 @@ SELF = ("obj", ("param", 1))
 LEVEL_CLASSES = {"ATOMIC", "Q", "STAT", "GEN", "TX", "RES", "MAP", "TICKET", "NONDET"}
 
 MUTATORS = ["add_order", "match_order", "update_order"]
+# queue methods the level rules summarise as primitive effects; any other OrderQueue method is inlined down to the
+# map / ticket operations it performs
+KNOWN_Q = {"push", "pop", "remove", "find", "to_vec", "len", "is_empty", "new", "from_vec", "from", "default", "fmt", "clone"}
+
+
+def entry_of(h):
+    """the place behind a DashMap RefMut handle h (payload of MAP.get_mut)"""
+    return ("obj", ("entry", h))
+
+
+def _handle(walker, st, a):
+    """the RefMut value behind `&handle` / `&mut handle`"""
+    if isinstance(a, tuple) and a[0] == "ref":
+        return walker._read(st, a[1])
+    if isinstance(a, tuple) and a[0] == "refval":
+        return a[1]
+    return a
+
+
+def entry_model(cn, callee, args, st, walker):
+    """DashMap's locked-entry protocol: `let mut e = map.get_mut(&k)?; .. e.value() .. *e.value_mut() = v` (also through
+    Deref/DerefMut/pair/pair_mut).  The entry is an abstract place; reading it before any store yields the symbolic
+    current value, a store is recorded by entry_write as MAP.entry_store."""
+    if "dashmap::mapref::one::RefMut" not in cn and "dashmap::mapref::one::Ref" not in cn:
+        return None
+    name = callee["name"]
+    if not args:
+        return None
+    h = _handle(walker, st, args[0])
+    if name in ("value", "deref"):
+        return ("val", ("ref", ("pl", entry_of(h), ()), False))
+    if name in ("value_mut", "deref_mut"):
+        return ("val", ("ref", ("pl", entry_of(h), ()), True))
+    if name == "key":
+        return None
+    return None
+
+
+def entry_write(st, pl, val, walker):
+    root = pl[1]
+    if root[0] == "obj" and isinstance(root[1], tuple) and root[1] and root[1][0] == "entry" and not pl[2]:
+        fr = st.frame
+        site = fr.site + ((fr.body.defp, st.bb),)
+        ev = ("eff", "MAP.entry_store", (root[1][1], val), ("eff", "MAP.entry_store", walker._site_str(site)), site, "", None, (root[1][1], val))
+        st.trace.append(ev)
 
 
 class LevelAnalysis:
@@ -73,7 +118,17 @@ class LevelAnalysis:
 
     def walker(self, **kw):
         w = self.ctx.walker(**kw)
-        w.effect_of = make_effect_fn(LEVEL_CLASSES)
+
+        def eff(callee, args, st, walker):
+            c = classify(callee)
+            if c is None or c[0] not in LEVEL_CLASSES:
+                return None
+            if c[0] == "Q" and c[1] not in KNOWN_Q:
+                return None     # a queue method the level rules have no summary for: analysed through its body
+            return "%s.%s" % c
+        w.effect_of = eff
+        w.custom_model = entry_model
+        w.on_heap_write = entry_write
         return w
 
     # ---- walking the mutators
@@ -165,6 +220,24 @@ class LevelAnalysis:
                     out.append(("list", None, e))
                 else:
                     out.append(("other", None, e))
+            elif e[0] == "eff" and e[1] == "MAP.get_mut" and e[2] and self.self_field(e[2][0]) == self.queue_field:
+                # locked entry of the id map (an in-place update primitive of the queue, inlined): the current value is
+                # owned by this thread until the handle is dropped
+                res = e[3]
+                v = facts.variant.get(res)
+                h = ("field", res, "Some", "0")
+                if v == "Some":
+                    out.append(("rtake", ("val", entry_of(h)), e))
+                elif v == "None":
+                    out.append(("miss", None, e))
+                else:
+                    out.append(("take?", ("val", entry_of(h)), e))
+            elif e[0] == "eff" and e[1] == "MAP.entry_store":
+                out.append(("rpush", e[2][1], e))
+            elif e[0] == "eff" and (e[1].startswith("MAP.") or e[1].startswith("TICKET.")) and e[2] and self.self_field(e[2][0]) == self.queue_field:
+                m = e[1].split(".", 1)[1]
+                if m not in ("get", "len", "is_empty", "iter", "contains_key", "new"):
+                    out.append(("raw", None, e))
             elif e[0] == "call" and e[1] in ("std::vec::Vec::push", "alloc::vec::Vec::push", "std::collections::VecDeque::push_back"):
                 # parking an order in a local container
                 a = e[2]
@@ -289,9 +362,9 @@ class LevelAnalysis:
         qev = [x for x in self.queue_events(trace, facts) if id(x[2]) in inseg]
         for kind, o, e in qev:
             sign = 0
-            if kind in ("push", "park"):
+            if kind in ("push", "park", "rpush"):
                 sign = 1
-            elif kind in ("take", "unpark"):
+            elif kind in ("take", "unpark", "rtake"):
                 sign = -1
             if sign:
                 q["visible"] = q["visible"].add(affine(self.R.role(o, facts, "display")), sign)
